@@ -251,19 +251,32 @@ def e2e_case(rng, cid):
     for _ in range(rng.randint(5, 14)):
         ci = rng.randrange(0, 6)
         count[ci] = count.get(ci, 0) + 1
-        ops.append(["send", ci, ("c%d-%d" % (ci, count[ci])).encode() + bytes(rng.randrange(256) for _ in range(rng.choice([0, 1, 8, 100])))])
+        tag = ("c%d-%d" % (ci, count[ci])).encode()
+        total = rng.choice([len(tag), len(tag) + 1, len(tag) + 8, 100, 100, 1500, 1501, 1600])
+        ops.append(["send", ci, tag + bytes(rng.randrange(256) for _ in range(total - len(tag)))])
     return Case(cid, ops)
 
 
+def e2e_corpus():
+    d = os.path.join(vlib.ROOT, "corpus", ID, "e2e")
+    out = []
+    if os.path.isdir(d):
+        for f in sorted(os.listdir(d)):
+            if f.endswith(".case"):
+                out += vlib.parse_cases(open(os.path.join(d, f)).read())
+    return out
+
+
 def extra_stage(tier, rng, work):
-    """thorough only: the socket shell (lib/src/udp.rs) end to end. The idle-reaper scenario sleeps past a
-    1 s idle timeout twice: the second expiry hung about every other run before fix 8526f1a."""
-    if tier != "thorough":
-        return dict(coverage=dict(e2e_cases=0))
-    cases = [Case("idle_reaper", [["setup", 1, 0, 0, 0, 1, 2, 1], ["send", 0, b"a0"], ["sleep", 2500, 1],
-                                  ["send", 1, b"a1"], ["sleep", 2500, 1], ["send", 0, b"a2"], ["sleep", 2500, 1],
-                                  ["send", 2, b"a3"]])]
-    cases += [e2e_case(rng, "e%d" % i) for i in range(120)]
+    """The socket shell (lib/src/udp.rs) end to end: a real worker thread, loopback sockets. A small batch in
+    the quick tier, a larger one in the thorough tier, where the hand-written scenarios (idle reaper: hung about
+    every other run before fix 8526f1a; affinity flips under live flows: aborted debug builds before fix d875ae5)
+    also run on the build with debug assertions."""
+    cases = e2e_corpus() + [e2e_case(rng, "e%d" % i) for i in range(120 if tier == "thorough" else 24)]
+    if tier == "thorough" and os.path.exists(vlib.harness_path("c19e", "checked")):
+        couts, _ = vlib.run_harness("c19e", e2e_corpus(), os.path.join(work, "e2e_checked"), "checked", timeout=600, shards=3)
+    else:
+        couts = {}
     outs, problems = vlib.run_harness("c19e", cases, os.path.join(work, "e2e"), "release", timeout=1200, shards=4)
     # real sockets and real time: a scenario that fails is run a second time, alone, and only
     # counts if it fails again (the deterministic twin of the timer scenarios is op `fire` in-process)
@@ -285,6 +298,15 @@ def extra_stage(tier, rng, work):
         for (vc, vt) in o["viol"]:
             viols.append((c, vc, vt))
         delivered += sum(1 for ob in o["obs"] if len(ob) >= 4 and ob[0] == "send")
+    for c in e2e_corpus():
+        o = couts.get(c.id)
+        if o is not None and (o["viol"] or o["panic"] is not None):
+            # debug assertions on: confirm once more before reporting
+            o2, _ = vlib.run_harness("c19e", [c], os.path.join(work, "e2e_retry"), "checked", timeout=300, shards=1)
+            o2 = o2.get(c.id)
+            if o2 is not None and (o2["viol"] or o2["panic"] is not None):
+                for (vc, vt) in o2["viol"][:1]:
+                    viols.append((c, "panic-checked", "debug build: " + vt))
     return dict(failures=failures, viols=viols, coverage=dict(e2e_cases=len(cases), e2e_datagrams_delivered=delivered, e2e_retried=retried))
 
 
